@@ -29,6 +29,7 @@ class FnSpec:
         self.loops = {}            # ordinal -> (iter_name, text, vcline)
         self.closures = {}         # ordinal -> (param decl, text, vcline)
         self.external_body = False
+        self.body_tags = None      # tags of body obligations that carry no tag of their own (default: the function's tags)
         self.sig_replace = []      # (pattern, replacement)
         self.sig_extra = []        # further ensures clauses (text, file, line), appended after sig
         self.iter_rewrites = {}    # loop ordinal -> (kind, index name, length expr)
@@ -218,6 +219,8 @@ class Vc:
                 fn.attrs.append(rest)
             elif word == 'external_body':
                 fn.external_body = True
+            elif word == 'body-tags':
+                fn.body_tags = rest.split()
             elif word == 'sig-replace':
                 a, b = rest.split('=>')
                 fn.sig_replace.append((a.strip().strip('`'), b.strip().strip('`')))
@@ -696,7 +699,7 @@ class Extractor:
         if spec is not None:
             self.used_fnspecs.add(q)
         tags = spec.tags if spec else []
-        finfo = {'name': q, 'file': sf.rel, 'line': sf.line_of(it.kw_start), 'contracted': spec is not None and spec.sig is not None, 'tags': tags}
+        finfo = {'name': q, 'file': sf.rel, 'line': sf.line_of(it.kw_start), 'contracted': spec is not None and spec.sig is not None, 'tags': tags, 'body_tags': (spec.body_tags if spec else None)}
         self.functions.append(finfo)
         if it.body is None:
             raise Unsupported("function %s without body" % q)
